@@ -1022,7 +1022,19 @@ func c16kGenProg(rng *rand.Rand, dry bool) *C16KP {
 		v := c16kGenRow(rng, 0)
 		if len(p.Rows) > 0 {
 			o := p.Rows[rng.Intn(len(p.Rows))]
-			switch rng.Intn(5) {
+			k := rng.Intn(5)
+			if p.Rule != nil && rng.Intn(3) != 0 {
+				// collide on the constraint the rule targets
+				switch p.Rule.target() {
+				case 0:
+					k = 0
+				case 1:
+					k = 2
+				case 2:
+					k = 3
+				}
+			}
+			switch k {
 			case 0, 1:
 				v[c16kID] = o[c16kID]
 				if rng.Intn(2) == 0 {
